@@ -328,7 +328,10 @@ def seed_worker():
     out = {}
     for i, c in enumerate(fam):
         spec = spec_of(c)
-        ref, _ = W.solve(spec)
+        try:
+            ref, _ = W.solve(spec)
+        except W.Ambiguous:
+            continue
         sol, err = X.run_guarded(lambda: X.model_from_dict(spec).calculate())
         out['d%d' % i] = err or X.canon_solution(sol, spec, list(ref))
         if i % 10 == 0:
